@@ -142,7 +142,7 @@ class ConnWorld(World):
     PROBES = ["release", "cut_header", "cut_annotations", "cut_payload", "rst", "malformed", "timeout_partial", "timeout_idle", "security",
               "hook_raises", "still_open_ok", "resources_closed", "resources_untracked", "session_instance", "multiplex", "thread",
               "concurrent_endings", "handshake_failed_conn", "oneway_then_close", "stream_open_at_end", "ctor_tracked_resource",
-              "oneway_tracked_resource", "oneway_tracked_after_end"]
+              "oneway_tracked_resource", "oneway_tracked_after_end", "malformed_truncated_zlib"]
     RULE = ("plan = (server type, COMMTIMEOUT, 2-4 connections each with handshake, 0-2 track calls (n resources, k untracked), optional "
             "session-instance call, an ending kind with byte offset, start delay; optional raising user hook / raising resource close); "
             "distinct = distinct interleaving digest; non-trivial = at least one connection ended abnormally while another was open")
@@ -172,6 +172,7 @@ class ConnWorld(World):
             if rng.random() < 0.3:
                 ow = [{"n": rng.randint(1, 2), "delay": rng.choice([0, 0, 0.02, 0.2])} for _ in range(rng.randint(1, 2))]
             conns.append({"start": rng.choice([0, 0, 0.01, 0.1]), "tracks": tracks, "ow_tracks": ow, "session": rng.random() < 0.4,
+                          "zcut": end == "malformed" and rng.random() < 0.3,
                           "streams": rng.choice([0, 0, 1, 2]),
                           "end": end, "frac": round(rng.random(), 3), "hold": rng.choice([0, 0.05, 0.3]),
                           "bad_handshake": rng.random() < 0.1, "hook_raises": rng.random() < 0.15,
@@ -300,7 +301,14 @@ class ConnWorld(World):
                     ctx.probe("malformed")
                     bad = bytearray(req)
                     k = int(spec["frac"] * 4)
-                    if k == 0:
+                    if spec.get("zcut"):
+                        # header and lengths consistent, compressed flag set, but the zlib stream lacks its last byte(s)
+                        import zlib
+                        z = zlib.compress(marshal.dumps(("res", "echo", ("e" * 300,), {})))
+                        z = z[:len(z) - 1 - int(spec["frac"] * 3)]
+                        bad = bytearray(N.build_message(N.MSG_INVOKE, N.FLAG_COMPRESSED, st["seq"] + 1, N.SER_MARSHAL, z, None))
+                        ctx.probe("malformed_truncated_zlib")
+                    elif k == 0:
                         bad[38:40] = b"\0\0"
                     elif k == 1:
                         bad[0:4] = b"GET "
